@@ -9,6 +9,10 @@
 //	rename    every local variable / parameter v → v_rn
 //	swapadd   a + b → b + a            (integer operands without calls)
 //	negateif  if c {A} else {B} → if !(c) {B} else {A}   (plain else blocks only)
+//	renamepkg every unexported package-level identifier / field / method x → xRn
+//	rangeidx  for k, v := range s {B} → for k := 0; k < len(s); k++ { v := s[k]; B }
+//	          (s a slice-typed identifier or field path not assigned in B; B without
+//	          closures, without assignments to k, and — for field paths — without calls)
 package main
 
 import (
@@ -41,7 +45,7 @@ func hasCall(e ast.Expr) bool {
 }
 
 func main() {
-	mode := flag.String("mode", "", "flipcmp|demorgan|opassign|rename|swapadd|negateif")
+	mode := flag.String("mode", "", "flipcmp|demorgan|opassign|rename|swapadd|negateif|renamepkg|rangeidx")
 	dir := flag.String("dir", "", "scratch copy of the repository")
 	flag.Parse()
 	if *dir == "" || strings.HasPrefix(*dir, "/repo") {
@@ -235,6 +239,161 @@ func rewrite(mode string, f *ast.File, info *types.Info, pkg *types.Package) int
 			}
 			be.X, be.Y = be.Y, be.X
 			n++
+			return true
+		})
+	case "rangeidx":
+		var visitList func(list []ast.Stmt)
+		exprStr := func(e ast.Expr) string { return types.ExprString(e) }
+		convert := func(rs *ast.RangeStmt) ast.Stmt {
+			if rs.Tok != token.DEFINE || rs.Key == nil {
+				return nil
+			}
+			tv, ok := info.Types[rs.X]
+			if !ok || tv.Type == nil {
+				return nil
+			}
+			if _, isSl := tv.Type.Underlying().(*types.Slice); !isSl {
+				return nil
+			}
+			// s: identifier or selector path
+			isPath := true
+			isIdent := false
+			var chk func(e ast.Expr)
+			chk = func(e ast.Expr) {
+				switch x := e.(type) {
+				case *ast.Ident:
+				case *ast.SelectorExpr:
+					chk(x.X)
+				default:
+					isPath = false
+				}
+			}
+			chk(rs.X)
+			if !isPath {
+				return nil
+			}
+			_, isIdent = rs.X.(*ast.Ident)
+			xs := exprStr(rs.X)
+			root := strings.SplitN(xs, ".", 2)[0]
+			keyName := ""
+			if id, ok := rs.Key.(*ast.Ident); ok {
+				keyName = id.Name
+			}
+			bad := false
+			ast.Inspect(rs.Body, func(nd ast.Node) bool {
+				switch x := nd.(type) {
+				case *ast.FuncLit, *ast.GoStmt, *ast.DeferStmt:
+					bad = true
+				case *ast.CallExpr:
+					if !isIdent {
+						if id, ok := x.Fun.(*ast.Ident); !ok || (id.Name != "len" && id.Name != "cap" && id.Name != "int" && id.Name != "uint32" && id.Name != "int32" && id.Name != "uint64" && id.Name != "int64") {
+							bad = true
+						}
+					}
+				case *ast.AssignStmt:
+					for _, l := range x.Lhs {
+						ls := exprStr(l)
+						if ls == xs || ls == root || ls == keyName || strings.HasPrefix(xs, ls+".") {
+							bad = true
+						}
+					}
+				case *ast.IncDecStmt:
+					if exprStr(x.X) == keyName {
+						bad = true
+					}
+				case *ast.UnaryExpr:
+					if x.Op == token.AND && (exprStr(x.X) == xs || exprStr(x.X) == root || exprStr(x.X) == keyName) {
+						bad = true
+					}
+				}
+				return true
+			})
+			if bad {
+				return nil
+			}
+			key := rs.Key.(*ast.Ident)
+			if key.Name == "_" {
+				key = ast.NewIdent(fmt.Sprintf("i_rg%d", n))
+			}
+			body := rs.Body
+			if v, ok := rs.Value.(*ast.Ident); ok && v.Name != "_" {
+				decl := &ast.AssignStmt{Lhs: []ast.Expr{ast.NewIdent(v.Name)}, Tok: token.DEFINE, Rhs: []ast.Expr{&ast.IndexExpr{X: rs.X, Index: ast.NewIdent(key.Name)}}}
+				body = &ast.BlockStmt{List: append([]ast.Stmt{decl}, rs.Body.List...)}
+			} else if rs.Value != nil {
+				if v, ok := rs.Value.(*ast.Ident); !ok || v.Name != "_" {
+					return nil
+				}
+			}
+			n++
+			return &ast.ForStmt{
+				Init: &ast.AssignStmt{Lhs: []ast.Expr{ast.NewIdent(key.Name)}, Tok: token.DEFINE, Rhs: []ast.Expr{&ast.BasicLit{Kind: token.INT, Value: "0"}}},
+				Cond: &ast.BinaryExpr{X: ast.NewIdent(key.Name), Op: token.LSS, Y: &ast.CallExpr{Fun: ast.NewIdent("len"), Args: []ast.Expr{rs.X}}},
+				Post: &ast.IncDecStmt{X: ast.NewIdent(key.Name), Tok: token.INC},
+				Body: body,
+			}
+		}
+		visitList = func(list []ast.Stmt) {
+			for i, st := range list {
+				if rs, ok := st.(*ast.RangeStmt); ok {
+					// a labelled continue/break would need the label moved: plain loops only
+					if fs := convert(rs); fs != nil {
+						list[i] = fs
+					}
+				}
+			}
+		}
+		ast.Inspect(f, func(nd ast.Node) bool {
+			switch x := nd.(type) {
+			case *ast.BlockStmt:
+				visitList(x.List)
+			case *ast.CaseClause:
+				visitList(x.Body)
+			}
+			return true
+		})
+	case "renamepkg":
+		// every unexported package-level function, method, type, variable, constant and
+		// struct field of the two packages gets the suffix Rn (test files are not rewritten:
+		// test files are ignored by the analyser)
+		ren := func(id *ast.Ident, obj types.Object) {
+			if obj == nil || obj.Pkg() != pkg || id.Name == "_" || ast.IsExported(id.Name) || strings.HasSuffix(id.Name, "Rn") {
+				return
+			}
+			if id.Name == "init" || id.Name == "main" {
+				if f, ok := obj.(*types.Func); ok && f.Type().(*types.Signature).Recv() == nil {
+					return
+				}
+			}
+			switch o := obj.(type) {
+			case *types.Func:
+			case *types.TypeName:
+				if o.Parent() != pkg.Scope() {
+					return
+				}
+			case *types.Var:
+				if !o.IsField() && o.Parent() != pkg.Scope() {
+					return
+				}
+			case *types.Const:
+				if o.Parent() != pkg.Scope() {
+					return
+				}
+			default:
+				return
+			}
+			id.Name += "Rn"
+			n++
+		}
+		ast.Inspect(f, func(nd ast.Node) bool {
+			id, ok := nd.(*ast.Ident)
+			if !ok {
+				return true
+			}
+			if obj := info.Defs[id]; obj != nil {
+				ren(id, obj)
+			} else if obj := info.Uses[id]; obj != nil {
+				ren(id, obj)
+			}
 			return true
 		})
 	case "rename":
